@@ -16,6 +16,8 @@ class Ctx:
         self.prop = prop
         self.tier = tier
         self.repo = Repo(root)
+        from . import util as _util
+        _util.CURRENT_REPO = self.repo
         self._cg = None
         self.instances = []     # dicts
         self.findings = []      # dicts (subset of instances with ok False)
